@@ -53,6 +53,14 @@ CHECKS["C20"] = dict(
    text="Bounded exhaustive enumeration of every wire model class (ErrorObject, all Details and Options, OperationUpdate, Operation, invocation input/output) over {absent, empty, value} per optional field and every enum member, pairwise across details classes, through both dict and JSON codecs, compared field-wise; every create_* factory's wire form is checked for the options passed; to/from_unix_millis over dense millisecond windows with sub-millisecond probes.",
    note="Trusted: the flattening comparison (drops None/''/empty sub-objects, millisecond resolution) which encodes the wire form's documented omissions. ~1.1e6 objects/timestamps quick.",
    technique="bounded exhaustive input enumeration (small-scope) against an identity reference", design="6/C20", engine="enum")
+CHECKS["C08"] = dict(
+   text="13 program shapes (nesting <=3, sibling maps, child-in-branch-in-map, callbacks in branches, max_concurrency, early completion) under every crash point, every schedule within 1 (quick) / 2 (thorough) deviations and four scheduler policies; the relation structural position -> (Id, ParentId) read from the updates reaching the backend model must be a function and injective within each execution, across all executions and across programs, and every ParentId must name the enclosing context.",
+   note=SIM_NOTE + " Ids of SDK-named contexts are learned from their children's parent links, not from naming conventions.",
+   technique=SIM_TECH, design="6/C08", engine="vsched+durable-sim")
+CHECKS["C09"] = dict(
+   text="parallel with 0..3 branches (every succeed/fail assignment x completion orders by distinct virtual finish times, blocked and parked branches) and maps of 0..3 items x 14 completion configurations x max_concurrency {None,1,2}, followed by a replaying invocation; oracle: an independent reference model of the documented completion policy evaluated on the world's ground truth (never returns before decided, never waits after, items in input order with the branch's actual result/error or STARTED, reason consistent with statuses and policy, simultaneous bodies <= limit, replay delivers an equal BatchResult).",
+   note=SIM_NOTE + " Where the documentation is contradictory (completely empty CompletionConfig) both fail-fast and tolerant behaviour are accepted.",
+   technique=SIM_TECH + "; differential against a reference model of the completion policy", design="6/C09", engine="vsched+durable-sim")
 NOT_YET = {}
 
 def main():
